@@ -71,6 +71,15 @@ pub fn validate_addresses(addresses: &Vec<String>, prefix: &str) -> StdResult<Ve
     Ok(validated)
 }
 
+/// Computes `now + period` in seconds, ensuring that the result can be
+/// represented as a [`cosmwasm_std::Timestamp`] (nanoseconds in a u64).
+pub fn compute_deadline(now_seconds: u64, period: u64) -> StdResult<u64> {
+    now_seconds
+        .checked_add(period)
+        .filter(|t| t.checked_mul(1_000_000_000).is_some())
+        .ok_or_else(|| StdError::generic_err("period is too large"))
+}
+
 pub fn compute_mint_amount(
     total_native_token: Uint128,
     total_liquid_stake_token: Uint128,
